@@ -1113,6 +1113,7 @@ func C18(c *vf.Ctx) {
 	wireRun(c, "HandlePacket kinds", wc, 8, e.kinds)
 	wc = wireBase("ops")
 	wireRun(c, "wire vocabulary of the stream operations", wc, 2, e.ops)
+	e.errorPayloads()
 	c.Cov["records_replayed"] = atomic.LoadInt64(&e.records)
 	c.Cov["reader_and_codec_runs"] = atomic.LoadInt64(&e.runs)
 	if n := e.lim.counts(); len(n) > 0 {
@@ -1121,6 +1122,60 @@ func C18(c *vf.Ctx) {
 	c.Cov["rule"] = "TLC enumerates Wire.tla modes emitnew/emitold (every frame sequence the stream layer of either version can emit up to the stated depth over kinds x payload lengths x id gaps x single/multi-frame x abandoned messages x soft-cancel control packets) and checks ReassembleOld(EmitNew) = StripControl(ReassembleNew(EmitNew)) and ReassembleNew(EmitOld) = ReassembleOld(EmitOld) on every state; every sequence is written by the real writer of the emitting version and read by both real readers (vendored v0.0.17 and the working tree) under several read partitions and compared with TLC's results and with each other. Real drpcstream programs are run and their wire output is checked by TLC to be a behaviour of EmitNew, then decoded by both readers. Mode meta enumerates metadata maps over string classes, mode kinds every kind 0..63 x control bit x stream state for HandlePacket. A case is distinct by its record."
 	c.Cov["exhaustive"] = false
 	c.Cov["exhaustive_note"] = "exhaustive over the emitter alphabets up to the stated depths; payload bytes, id values and read partitions are representatives plus seeded draws"
+}
+
+// errorPayloads: the KindError payload (8-byte big-endian code ++ text, spec/ErrCodec.tla) means the same to both
+// versions.  Raw payloads come from the ErrCodec enumeration (every length around the 8-byte boundary over bytes
+// that matter to a decoder: NUL, '%', a letter, 0xFF); texts and codes come from a fixed list.  Both directions:
+// what the current MarshalError emits is decoded by v0.0.17 to the same text and code, and what v0.0.17 emits is
+// decoded by the current UnmarshalError to the same text and code as v0.0.17 itself decodes it.
+func (e *compatEngine) errorPayloads() {
+	c := e.c
+	n := 0
+	same := func(what string, data []byte) {
+		n++
+		var en, eo error
+		if p := guard(func() { en = drpcwire.UnmarshalError(append([]byte(nil), data...)) }); p != nil {
+			c.Violation("error payload: the current UnmarshalError panics", map[string]any{"payload": data, "panic": fmt.Sprint(p)})
+			return
+		}
+		eo = oldwire.UnmarshalError(append([]byte(nil), data...))
+		if (en == nil) != (eo == nil) || (en != nil && (en.Error() != eo.Error() || drpcerr.Code(en) != drpcerr.Code(eo))) {
+			c.Violation("error payload: the current UnmarshalError and v0.0.17 decode the same bytes differently ("+what+")",
+				map[string]any{"payload": data, "current": fmt.Sprint(en), "current_code": drpcerr.Code(en), "v0.0.17": fmt.Sprint(eo), "v0.0.17_code": drpcerr.Code(eo)})
+		}
+	}
+	var jobs tlcJobs
+	jobs.err(c, "errcodec_tlc_runs", "short", "{}", "{0, 37, 115, 255}", 10, func(r *errRec) {
+		data := make([]byte, len(r.Payload))
+		for i, b := range r.Payload {
+			data[i] = byte(b)
+		}
+		same("raw bytes", data)
+	})
+	jobs.wait()
+	for _, txt := range []string{"", "x", "disk 100% full", "%s %d %v %%", "%!", "a\x00b", "\xff\xfe", strings.Repeat("%d", 300), strings.Repeat("y", 70000)} {
+		for _, code := range []uint64{0, 1, 77, 1 << 32, 1 << 63, ^uint64(0)} {
+			var er error = errors.New(txt)
+			if code != 0 {
+				er = drpcerr.WithCode(er, code)
+			}
+			dn, do := drpcwire.MarshalError(er), oldwire.MarshalError(er)
+			if !bytes.Equal(dn, do) {
+				c.Violation("error payload: MarshalError emits different bytes than v0.0.17", map[string]any{"text_len": len(txt), "code": code})
+			}
+			same("emitted by the current MarshalError", dn)
+			same("emitted by v0.0.17's MarshalError", do)
+			if got := oldwire.UnmarshalError(dn); got == nil || got.Error() != txt || drpcerr.Code(got) != code {
+				c.Violation("error payload new->old: v0.0.17 does not decode the text and code the current side sent", map[string]any{"text_len": len(txt), "code": code, "decoded": trunc(fmt.Sprint(got), 80)})
+			}
+			if got := drpcwire.UnmarshalError(do); got == nil || got.Error() != txt || drpcerr.Code(got) != code {
+				c.Violation("error payload old->new: the current side does not decode the text and code v0.0.17 sent", map[string]any{"text_len": len(txt), "code": code, "decoded": trunc(fmt.Sprint(got), 80)})
+			}
+		}
+	}
+	c.Cov["error_payload_cases"] = n
+	c.EvalN(int64(n))
 }
 
 func init() {
